@@ -8,7 +8,7 @@
 // stdout per case:
 //   CASE <id> <status>            status: ok | diff | skip:<why> | fail:<stage>
 //   MSG <text>                    (error message, one line)
-//   D <field> <first idx> <n> <count> <a %.17g> <b %.17g>
+//   D <field> <first idx> <n> <count> <a %.17g> <b %.17g> <max scaled difference over the array>
 //   DC <n>                        number of don't-care components that differed (see c32_cmp.h)
 //   FIX <0|1>                     second generation text identical to the first (save(parse(save x)) == save x)
 //   D3 ...                        differences between 2nd and 3rd generation models (must be none, bit-exact)
@@ -53,7 +53,7 @@ static bool Save(mjSpec* s, std::string& out, std::string& err) {
 
 static void PrintDiffs(const char* tag, const C32Cmp& c) {
   for (const C32Diff& d : c.diffs)
-    std::printf("%s %s %ld %ld %ld %.17g %.17g\n", tag, d.field.c_str(), d.idx, d.n, d.count, d.a, d.b);
+    std::printf("%s %s %ld %ld %ld %.17g %.17g %.3g\n", tag, d.field.c_str(), d.idx, d.n, d.count, d.a, d.b, d.maxs);
 }
 
 static void PrintXml(const char* tag, const std::string& x) {
@@ -102,7 +102,7 @@ static void RunCase(const char* id, int prec, int dump, mjSpec* s1) {
       e[0] = 0;
       s3 = mj_parseXMLString(x2.c_str(), nullptr, e, sizeof e);
       if (s3) m3 = mj_compile(s3, nullptr);
-      if (m3) c32_compare(m2, m3, c3); else c3.diffs.push_back({std::string("gen3:") + (s3 ? "compile" : "parse"), 0, 0, 0, 0, 1});
+      if (m3) c32_compare(m2, m3, c3); else c3.diffs.push_back({std::string("gen3:") + (s3 ? "compile" : "parse"), 0, 0, 0, 0, 1, INFINITY});
     }
     bad = !c.diffs.empty() || !gen2 || !fix || !c3.diffs.empty();
     std::printf("CASE %s %s\n", id, c.diffs.empty() ? "ok" : "diff");
